@@ -36,6 +36,11 @@ def section(rng, path, kind="change", fmt=None, width=None, nonl=True):
     if kind in ("rename", "copy"):
         newpath = rng.choice(["moved/" + path.split("/")[-1], path + ".new", "n_" + path.replace("/", "_")])
     hs = gen.hunks_from_ops(ops, w) if any(o != " " for o, _ in ops) else []
+    if rng.random() < 0.12:
+        # diff -p / -F re: function headings on the hunk separators
+        for h in hs:
+            if rng.random() < 0.8:
+                h["heading"] = rng.choice(["int main(void)", "def f(x):", "static void g (int a)", "section 2", "sub x {"])
     mo = mn = None
     if fmt == "normal":
         hs = gen.hunks_from_ops(ops, 0)
@@ -167,8 +172,8 @@ def gen_scenario(rng, nsec=None, kinds=None, fmts=None, **kw):
         fmt = "git" if same_fmt_git else rng.choice(fmts or ["unified", "unified", "context", "normal"])
         if fmt == "normal" and " " in p:
             fmt = "unified"     # an Index: line cannot carry a name with a blank
-        if kind in ("add", "delete") and fmt in ("context", "normal"):
-            fmt = "unified"     # known findings K2/K21: context/normal creation and deletion (operation inference)
+        if kind in ("add", "delete") and fmt == "normal":
+            fmt = rng.choice(["unified", "context"])     # (a normal diff cannot say that a file comes into being or goes away)
         sec_ = section(rng, p, kind=kind, fmt=fmt, width=(rng.choice([1, 2, 3]) if kind in ("add", "delete") or fmt == "normal" else None))
         # two sections of one stream never write the same new name (two files renamed / copied to one name is not a diff of
         # a tree to a tree)
